@@ -8,36 +8,175 @@
 //!   group_admin sender=<a> new=<a|->      splits_admin sender=<a> new=<a|->
 //!   distribute sender=<a> funds=<d:n,..|-> denoms=<none|-|d,..>       (+ witness ` order=<d,..>` for the model)
 //!   q_members start=<a|-> limit=<n|->     q_member addr=<a>
+//!   exec_raw sender=<a> funds=<d:n,..|-> v=<variant name> k=<n>       (an execute message the contract does not have — or has
+//!                                                                      only since a change: built from the crate's JSON schema)
+//!   migrate sender=<a> from=<same|old|newer|other>
+//!   any line may end in ` hold=1`: the block is NOT advanced after it (the next op runs in the same block)
+//!
+//! All messages to the splits contract are raw JSON (`serde_json::json!`): a changed Rust type changes behaviour, not compilation.
+//! The message surface is enumerated at RUN TIME from `schema_for!(sg_splits::msg::ExecuteMsg)`; variants without a named op here
+//! are sent through `exec_raw` under the same monitors.
+//!
+//! Output = `primary ## drift` (docs/HARNESS.md): primary = ok/err, `paid=` (net gain of every account other than the contract,
+//! from BANK BALANCES, sorted), splits admin, group total + members, all balances. Drift = cw4-group's admin, the bank messages in
+//! emission order (parsed from cw-multi-test's `transfer` events), ok/err of `exec_raw`/`migrate`, `q_members` pages other than the
+//! one `execute_distribute` asks for.
 use std::collections::{BTreeMap, BTreeSet};
 
 use cosmwasm_std::{to_json_binary, Addr, Coin};
-use cw4::{Member, MemberListResponse, MemberResponse, TotalWeightResponse};
+use cw4::{Member, MemberListResponse, TotalWeightResponse};
 use cw_controllers::AdminResponse;
 use cw_multi_test::{next_block, AppResponse, BankSudo, Executor, SudoMsg};
 use lp_harness::boxes::{self, App};
 use lp_harness::world::*;
 use lp_harness::*;
-use sg_controllers::ContractInstantiateMsg;
-use sg_splits::msg::{ExecuteMsg, Group, InstantiateMsg, QueryMsg};
+use serde_json::{json, Map, Value};
 
 const CREATOR: u64 = 900;
 /// the literal of the property text ("more than 25")
 const PROP_MAX_MEMBERS: usize = 25;
+/// the page `execute_distribute` asks cw4-group for (only used to decide which `q_members` answers are inside the projection)
+const SPLITS_PAGE: u64 = sg_splits::contract::PAGINATION_LIMIT as u64;
 
-// every message kind of the splits contract is constructed somewhere below; a new variant stops this compiling
-#[allow(dead_code)]
-fn message_surface(e: &ExecuteMsg, q: &QueryMsg) {
-    match e {
-        ExecuteMsg::UpdateAdmin { .. } => {}
-        ExecuteMsg::Distribute { .. } => {}
+// ------------------------------------------------------------------------------------------------ run-time message surface
+
+/// execute variants this file has a NAMED op for; everything else found in the schema goes through `exec_raw`
+const KNOWN_EXEC: [&str; 2] = ["update_admin", "distribute"];
+/// messages the contract does NOT have (today they fail at parsing); kept in the generator so that the monitors are already in
+/// place when one of them — or anything else — becomes a real message
+const HYPOTHETICAL: [&str; 10] = ["withdraw", "burn", "sweep", "send", "transfer", "claim", "update_group", "set_group", "update_members", "receive"];
+
+fn exec_schema() -> Value {
+    serde_json::to_value(cosmwasm_schema::schema_for!(sg_splits::msg::ExecuteMsg)).expect("schema to json")
+}
+
+/// (variant name in snake case, schema of its payload; None for a unit variant serialised as a bare string)
+fn schema_variants(root: &Value) -> Vec<(String, Option<Value>)> {
+    let mut out = vec![];
+    let mut alts: Vec<Value> = vec![];
+    for k in ["oneOf", "anyOf"] {
+        if let Some(a) = root[k].as_array() {
+            alts.extend(a.iter().cloned());
+        }
     }
-    match q {
-        QueryMsg::Admin {} => {}
-        QueryMsg::Group {} => {}
-        QueryMsg::Member { .. } => {}
-        QueryMsg::ListMembers { .. } => {}
+    if alts.is_empty() {
+        alts.push(root.clone());
+    }
+    for alt in alts {
+        if let Some(en) = alt["enum"].as_array() {
+            for e in en {
+                if let Some(s) = e.as_str() {
+                    out.push((s.to_string(), None));
+                }
+            }
+        } else if let Some(req) = alt["required"].as_array() {
+            if let Some(name) = req.first().and_then(|x| x.as_str()) {
+                out.push((name.to_string(), Some(alt["properties"][name].clone())));
+            }
+        }
+    }
+    out.sort_by(|a, b| a.0.cmp(&b.0));
+    out.dedup_by(|a, b| a.0 == b.0);
+    out
+}
+
+/// minimal JSON value for a schema: integers = k, numeric strings = k, addresses = `who`, denoms = ustars, options = null,
+/// arrays = one element
+fn fill(s: &Value, defs: &Value, k: u128, who: &str, hint: &str, depth: u32) -> Value {
+    if depth > 8 {
+        return Value::Null;
+    }
+    if let Some(r) = s["$ref"].as_str() {
+        let name = r.rsplit('/').next().unwrap_or("");
+        return fill(&defs[name], defs, k, who, hint, depth + 1);
+    }
+    if let Some(a) = s["allOf"].as_array() {
+        if let Some(f) = a.first() {
+            return fill(f, defs, k, who, hint, depth + 1);
+        }
+    }
+    for key in ["anyOf", "oneOf"] {
+        if let Some(a) = s[key].as_array() {
+            if a.iter().any(|x| x["type"] == "null") {
+                return Value::Null;
+            }
+            if let Some(f) = a.first() {
+                if let Some(req) = f["required"].as_array().and_then(|r| r.first()).and_then(|x| x.as_str()) {
+                    let mut m = Map::new();
+                    m.insert(req.to_string(), fill(&f["properties"][req], defs, k, who, req, depth + 1));
+                    return Value::Object(m);
+                }
+                return fill(f, defs, k, who, hint, depth + 1);
+            }
+        }
+    }
+    if let Some(en) = s["enum"].as_array() {
+        return en.first().cloned().unwrap_or(Value::Null);
+    }
+    let ty: String = match &s["type"] {
+        Value::String(t) => t.clone(),
+        Value::Array(ts) => {
+            if ts.iter().any(|t| t == "null") {
+                return Value::Null;
+            }
+            ts.first().and_then(|t| t.as_str()).unwrap_or("").to_string()
+        }
+        _ => String::new(),
+    };
+    match ty.as_str() {
+        "integer" | "number" => json!(k.min(u32::MAX as u128) as u64),
+        "string" => {
+            let h = hint.to_lowercase();
+            if ["addr", "recipient", "to", "contract", "owner", "sender", "admin", "member", "group"].iter().any(|w| h == *w || (w.len() > 2 && h.contains(w))) {
+                json!(who)
+            } else if h.contains("denom") {
+                json!(denom(0))
+            } else {
+                json!(k.to_string())
+            }
+        }
+        "boolean" => json!(k % 2 == 1),
+        "array" => {
+            if s["items"].is_object() {
+                json!([fill(&s["items"], defs, k, who, hint, depth + 1)])
+            } else {
+                json!([])
+            }
+        }
+        "object" => {
+            let mut m = Map::new();
+            if let Some(req) = s["required"].as_array() {
+                for r in req.iter().filter_map(|x| x.as_str()) {
+                    m.insert(r.to_string(), fill(&s["properties"][r], defs, k, who, r, depth + 1));
+                }
+            }
+            Value::Object(m)
+        }
+        _ => Value::Null,
     }
 }
+
+/// the raw message for `exec_raw v=<name> k=<k>`: from the schema when the crate has such a variant, `{"<name>":{}}` otherwise
+fn raw_msg(root: &Value, name: &str, k: u128, who: &str) -> Value {
+    let defs = &root["definitions"];
+    for (n, payload) in schema_variants(root) {
+        if n == name {
+            return match payload {
+                None => json!(name),
+                Some(p) => {
+                    let mut m = Map::new();
+                    m.insert(name.to_string(), fill(&p, defs, k, who, name, 0));
+                    Value::Object(m)
+                }
+            };
+        }
+    }
+    let mut m = Map::new();
+    m.insert(name.to_string(), json!({}));
+    Value::Object(m)
+}
+
+// ------------------------------------------------------------------------------------------------ observations
 
 type Bal = BTreeMap<(u64, u64), u128>;
 
@@ -51,16 +190,20 @@ struct Snap {
 }
 
 impl Snap {
+    /// inside the projection
     fn render(&self) -> String {
         let bank: Vec<String> = self.bank.iter().filter(|(_, v)| **v != 0).map(|((a, d), n)| format!("{a}:{d}:{n}")).collect();
         format!(
-            "sadmin={} gadmin={} total={} members={} bank={}",
+            "sadmin={} total={} members={} bank={}",
             fmt_opt(&self.sadmin),
-            fmt_opt(&self.gadmin),
             self.total,
             fmt_pairs(&self.members),
             if bank.is_empty() { "-".to_string() } else { bank.join(",") }
         )
+    }
+    /// outside the projection
+    fn render_drift(&self) -> String {
+        format!("gadmin={}", fmt_opt(&self.gadmin))
     }
     fn bal(&self, a: u64, d: u64) -> u128 {
         *self.bank.get(&(a, d)).unwrap_or(&0)
@@ -68,12 +211,29 @@ impl Snap {
     fn weight(&self, a: u64) -> Option<u64> {
         self.members.iter().find(|m| m.0 == a).map(|m| m.1)
     }
-    fn supply(&self, d: u64) -> u128 {
-        self.bank.iter().filter(|((_, dd), _)| *dd == d).map(|(_, n)| *n).sum()
+    /// total of denom `d` over all tracked accounts as (number of u128 overflows, wrapped sum): balances go up to u128::MAX
+    fn supply(&self, d: u64) -> (u32, u128) {
+        let mut hi = 0u32;
+        let mut lo = 0u128;
+        for ((_, dd), n) in &self.bank {
+            if *dd == d {
+                let (s, o) = lo.overflowing_add(*n);
+                lo = s;
+                if o {
+                    hi += 1;
+                }
+            }
+        }
+        (hi, lo)
     }
     fn denoms(&self) -> BTreeSet<u64> {
         self.bank.keys().map(|k| k.1).collect()
     }
+}
+
+fn add_wide(x: (u32, u128), n: u128) -> (u32, u128) {
+    let (s, o) = x.1.overflowing_add(n);
+    (x.0 + o as u32, s)
 }
 
 struct World {
@@ -82,12 +242,18 @@ struct World {
     group: Addr,
     splits_id: u64,
     tracked: BTreeSet<u64>,
+    /// cw2 record the contract wrote at instantiation (name, version)
+    cw2: (String, String),
 }
 
 impl World {
     fn snapshot(&self) -> Snap {
         let q = self.app.wrap();
-        let sadmin: AdminResponse = q.query_wasm_smart(&self.splits, &QueryMsg::Admin {}).expect("splits admin");
+        // the splits contract's own admin (code under test) — the monitors compare it with the harness's ledger of accepted
+        // UpdateAdmin calls instead of trusting it
+        let sadmin: Value = q.query_wasm_smart(&self.splits, &json!({"admin": {}})).expect("splits admin");
+        let sadmin: Option<u64> = sadmin["admin"].as_str().map(addr_id);
+        // the group is read from cw4-group directly (external crate, not the code under test), page by page
         let gadmin: AdminResponse = q.query_wasm_smart(&self.group, &cw4_group::msg::QueryMsg::Admin {}).expect("group admin");
         let total: TotalWeightResponse = q.query_wasm_smart(&self.group, &cw4_group::msg::QueryMsg::TotalWeight { at_height: None }).expect("total");
         let mut members: Vec<(u64, u64)> = vec![];
@@ -110,20 +276,23 @@ impl World {
                 bank.insert((*id, denom_id(&c.denom)), c.amount.u128());
             }
         }
-        Snap { sadmin: sadmin.admin.map(|s| addr_id(&s)), gadmin: gadmin.admin.map(|s| addr_id(&s)), total: total.weight, members, bank }
+        Snap { sadmin, gadmin: gadmin.admin.map(|s| addr_id(&s)), total: total.weight, members, bank }
     }
 }
 
-/// what the monitor looks at: one executed op with the implementation's own before/after observations
+/// what the monitor looks at: one executed op with before/after observations and what the harness itself knows
 #[derive(Clone, Debug)]
 struct Trace {
     line: String,
     ok: bool,
     pre: Snap,
     post: Snap,
-    /// bank transfers out of the splits contract, in order: (recipient, denom, amount)
-    transfers: Vec<(u64, u64, u128)>,
+    /// bank transfers out of the splits contract as cw-multi-test's events report them, in order: (recipient, denom, amount);
+    /// None when the events could not be parsed (then only the balance-based monitors run)
+    events: Option<Vec<(u64, u64, u128)>>,
     splits_id: u64,
+    /// the admin of the splits contract according to the harness's own ledger (header + accepted UpdateAdmin), before the op
+    ledger_admin: Option<u64>,
 }
 
 struct S {
@@ -132,6 +301,11 @@ struct S {
     log: Vec<String>,
     cur: Snap,
     last: Option<Trace>,
+    schema: Value,
+    /// admin ledger: what the harness sent, never what the contract answers
+    ledger_admin: Option<u64>,
+    /// how often the event list and the balance deltas told different stories (events are then ignored)
+    events_unreliable: u64,
 }
 
 fn ids_in_line(line: &str) -> Vec<u64> {
@@ -156,27 +330,41 @@ fn members_of(ps: &[(u128, u128)]) -> Vec<Member> {
     ps.iter().map(|(a, w)| Member { addr: addr(*a as u64), weight: *w as u64 }).collect()
 }
 
-fn parse_transfers(res: &AppResponse, from: &Addr) -> Vec<(u64, u64, u128)> {
+/// cw-multi-test bank events (`transfer` with `sender`/`recipient`/`amount`); None if anything looks unfamiliar
+fn parse_transfers(res: &AppResponse, from: &Addr) -> Option<Vec<(u64, u64, u128)>> {
     let mut out = vec![];
     for e in &res.events {
         if e.ty != "transfer" {
             continue;
         }
-        let get = |k: &str| e.attributes.iter().find(|a| a.key == k).map(|a| a.value.clone()).unwrap_or_default();
-        if get("sender") != from.as_str() {
+        let get = |k: &str| e.attributes.iter().find(|a| a.key == k).map(|a| a.value.clone());
+        let (sender, recipient, amount) = (get("sender")?, get("recipient")?, get("amount")?);
+        if sender != from.as_str() {
             continue;
         }
-        let to = addr_id(&get("recipient"));
-        for part in get("amount").split(',') {
+        let to = addr_id(&recipient);
+        for part in amount.split(',') {
             let i = part.find(|c: char| !c.is_ascii_digit()).unwrap_or(part.len());
-            let amt: u128 = part[..i].parse().unwrap_or(u128::MAX);
+            let amt: u128 = part[..i].parse().ok()?;
             out.push((to, denom_id(&part[i..]), amt));
         }
     }
-    out
+    Some(out)
+}
+
+fn explicit_denoms(line: &str) -> Option<Vec<u64>> {
+    if kv(line, "denoms").unwrap() == "none" {
+        None
+    } else {
+        Some(kv_list(line, "denoms").unwrap().iter().map(|x| *x as u64).collect())
+    }
 }
 
 impl S {
+    fn new() -> S {
+        S { w: None, header: String::new(), log: vec![], cur: Snap::default(), last: None, schema: exec_schema(), ledger_admin: None, events_unreliable: 0 }
+    }
+
     fn build_world(header: &str) -> Option<World> {
         let mode = kv(header, "mode")?;
         let self_id = kv_u64(header, "self")?;
@@ -188,32 +376,27 @@ impl S {
         let group_code = app.store_code(boxes::cw4_group());
         let splits_code = app.store_code(boxes::splits());
         let gmsg = cw4_group::msg::InstantiateMsg { admin: gadmin, members };
+        // the wasm-level admin (who may migrate) is the creator
+        let wasm_admin = Some(addr(CREATOR));
         let (splits, group) = match mode {
             "addr" => {
                 let group = app.instantiate_contract(group_code, a(CREATOR), &gmsg, &[], "group", None).ok()?;
                 app.update_block(next_block);
-                let msg = InstantiateMsg { admin, group: Group::Cw4Address(group.to_string()) };
-                let splits = app.instantiate_contract(splits_code, a(CREATOR), &msg, &[], "splits", None).ok()?;
+                let msg = json!({"admin": admin, "group": {"cw4_address": group.to_string()}});
+                let splits = app.instantiate_contract(splits_code, a(CREATOR), &msg, &[], "splits", wasm_admin).ok()?;
                 (splits, group)
             }
             "inst" => {
-                let msg = InstantiateMsg {
-                    admin,
-                    group: Group::Cw4Instantiate(ContractInstantiateMsg {
-                        code_id: group_code,
-                        msg: to_json_binary(&gmsg).unwrap(),
-                        admin: None,
-                        label: "cw4-group".into(),
-                    }),
-                };
-                let splits = app.instantiate_contract(splits_code, a(CREATOR), &msg, &[], "splits", None).ok()?;
-                let group: Addr = app.wrap().query_wasm_smart(&splits, &QueryMsg::Group {}).ok()?;
+                let msg = json!({"admin": admin, "group": {"cw4_instantiate": {
+                    "code_id": group_code, "msg": to_json_binary(&gmsg).unwrap(), "admin": null, "label": "cw4-group"}}});
+                let splits = app.instantiate_contract(splits_code, a(CREATOR), &msg, &[], "splits", wasm_admin).ok()?;
+                let group: Addr = app.wrap().query_wasm_smart(&splits, &json!({"group": {}})).ok()?;
                 (splits, group)
             }
             "bad" => {
                 // a plain account is not a cw4 contract
-                let msg = InstantiateMsg { admin, group: Group::Cw4Address(addr(group_id)) };
-                let splits = app.instantiate_contract(splits_code, a(CREATOR), &msg, &[], "splits", None).ok()?;
+                let msg = json!({"admin": admin, "group": {"cw4_address": addr(group_id)}});
+                let splits = app.instantiate_contract(splits_code, a(CREATOR), &msg, &[], "splits", wasm_admin).ok()?;
                 (splits, a(group_id))
             }
             _ => return None,
@@ -226,35 +409,41 @@ impl S {
         tracked.insert(self_id);
         tracked.insert(group_id);
         tracked.insert(CREATOR);
-        Some(World { app, splits, group, splits_id: self_id, tracked })
+        let cw2 = cw2::get_contract_version(&*app.contract_storage(&splits)).map(|v| (v.contract, v.version)).unwrap_or_default();
+        Some(World { app, splits, group, splits_id: self_id, tracked, cw2 })
     }
 
     fn exec_inner(&mut self, line: &str) -> (String, String) {
+        let schema = self.schema.clone();
+        let ledger_admin = self.ledger_admin;
         let Some(w) = self.w.as_mut() else { return (line.to_string(), "err".into()) };
         for id in ids_in_line(line) {
             w.tracked.insert(id);
         }
         let op = line.split_whitespace().next().unwrap_or("");
-        let pre = self.cur.clone();
         let mut model_line = line.to_string();
-        let mut transfers = vec![];
+        let mut events: Option<Vec<(u64, u64, u128)>> = Some(vec![]);
         // queries do not change anything
         match op {
             "q_members" => {
-                let start = kv_opt_u64(line, "start").unwrap().map(addr);
-                let limit = kv_opt_u64(line, "limit").unwrap().map(|x| x as u32);
-                let r: Result<MemberListResponse, _> = w.app.wrap().query_wasm_smart(&w.splits, &QueryMsg::ListMembers { start_after: start, limit });
-                let out = match r {
-                    Ok(l) => format!("ok {}", fmt_pairs(&l.members.iter().map(|m| (addr_id(&m.addr), m.weight)).collect::<Vec<_>>())),
-                    Err(_) => "err".into(),
+                let start = kv_opt_u64(line, "start").unwrap();
+                let limit = kv_opt_u64(line, "limit").unwrap();
+                let r: Result<Value, _> = w.app.wrap().query_wasm_smart(&w.splits, &json!({"list_members": {"start_after": start.map(addr), "limit": limit}}));
+                let out = match r.ok().and_then(|v| {
+                    v["members"].as_array().map(|ms| ms.iter().map(|m| (addr_id(m["addr"].as_str().unwrap_or("")), m["weight"].as_u64().unwrap_or(u64::MAX))).collect::<Vec<_>>())
+                }) {
+                    // only the page `execute_distribute` itself asks for is inside the projection
+                    Some(l) if start.is_none() && limit == Some(SPLITS_PAGE) => format!("ok {}", fmt_pairs(&l)),
+                    Some(l) => format!("ok ## {}", fmt_pairs(&l)),
+                    None => "err".into(),
                 };
                 self.last = None;
                 return (model_line, out);
             }
             "q_member" => {
-                let r: Result<MemberResponse, _> = w.app.wrap().query_wasm_smart(&w.splits, &QueryMsg::Member { address: addr(kv_u64(line, "addr").unwrap()) });
+                let r: Result<Value, _> = w.app.wrap().query_wasm_smart(&w.splits, &json!({"member": {"address": addr(kv_u64(line, "addr").unwrap())}}));
                 let out = match r {
-                    Ok(m) => format!("ok {}", fmt_opt(&m.weight)),
+                    Ok(m) => format!("ok {}", fmt_opt(&m["weight"].as_u64())),
                     Err(_) => "err".into(),
                 };
                 self.last = None;
@@ -262,6 +451,7 @@ impl S {
             }
             _ => {}
         }
+        let pre = self.cur.clone();
         let res: Result<AppResponse, String> = match op {
             "mint" => {
                 let to = addr(kv_u64(line, "to").unwrap());
@@ -288,14 +478,13 @@ impl S {
             "splits_admin" => {
                 let sender = a(kv_u64(line, "sender").unwrap());
                 let new = kv_opt_u64(line, "new").unwrap().map(addr);
-                w.app.execute_contract(sender, w.splits.clone(), &ExecuteMsg::UpdateAdmin { admin: new }, &[]).map_err(|e| e.to_string())
+                w.app.execute_contract(sender, w.splits.clone(), &json!({"update_admin": {"admin": new}}), &[]).map_err(|e| e.to_string())
             }
             "distribute" => {
                 let sender = a(kv_u64(line, "sender").unwrap());
                 let funds_ids = kv_pairs(line, "funds").unwrap();
                 let funds: Vec<Coin> = coins_of(&funds_ids);
-                let dn = kv(line, "denoms").unwrap();
-                let denom_list: Option<Vec<String>> = if dn == "none" { None } else { Some(kv_list(line, "denoms").unwrap().iter().map(|d| denom(*d as u64)).collect()) };
+                let denom_list: Option<Vec<String>> = explicit_denoms(line).map(|l| l.iter().map(|d| denom(*d)).collect());
                 // witness: what `query_all_balances(contract)` returns inside the transaction = the non-zero
                 // balances after the attached funds arrived, in the bank's order (denom strings ascending)
                 let mut held: BTreeMap<String, (u64, u128)> = BTreeMap::new();
@@ -307,35 +496,96 @@ impl S {
                         break; // a transfer to oneself adds nothing
                     }
                     let e = held.entry(denom(*d as u64)).or_insert((*d as u64, 0));
-                    e.1 += *n;
+                    e.1 = e.1.saturating_add(*n);
                 }
                 let order: Vec<u64> = held.values().filter(|v| v.1 != 0).map(|v| v.0).collect();
                 model_line = format!("{line} order={}", fmt_list(&order));
-                let r = w.app.execute_contract(sender, w.splits.clone(), &ExecuteMsg::Distribute { denom_list }, &funds);
+                let r = w.app.execute_contract(sender, w.splits.clone(), &json!({"distribute": {"denom_list": denom_list}}), &funds);
                 if let Ok(resp) = &r {
-                    transfers = parse_transfers(resp, &w.splits);
+                    events = parse_transfers(resp, &w.splits);
                 }
                 r.map_err(|e| e.to_string())
             }
+            "exec_raw" => {
+                let sender_id = kv_u64(line, "sender").unwrap();
+                let funds: Vec<Coin> = coins_of(&kv_pairs(line, "funds").unwrap());
+                let name = kv(line, "v").unwrap();
+                let k = kv_u128(line, "k").unwrap_or(1);
+                let msg = raw_msg(&schema, name, k, &addr(sender_id));
+                w.app.execute_contract(a(sender_id), w.splits.clone(), &msg, &funds).map_err(|e| e.to_string())
+            }
+            "migrate" => {
+                let sender = a(kv_u64(line, "sender").unwrap());
+                // environment: which version the stored contract claims to be (cw2), set from outside before the call
+                let (name0, ver0) = w.cw2.clone();
+                let (name, ver) = match kv(line, "from").unwrap_or("same") {
+                    "old" => (name0, "0.0.1".to_string()),
+                    "newer" => (name0, "999.0.0".to_string()),
+                    "other" => ("crates.io:something-else".to_string(), ver0),
+                    _ => (name0, ver0),
+                };
+                {
+                    let mut st = w.app.contract_storage_mut(&w.splits);
+                    cw2::set_contract_version(&mut *st, name, ver).expect("cw2");
+                }
+                let code_id = w.app.wrap().query_wasm_contract_info(&w.splits).map(|i| i.code_id).unwrap_or(2);
+                w.app.migrate_contract(sender, w.splits.clone(), &json!({}), code_id).map_err(|e| e.to_string())
+            }
             _ => return (model_line, "bad-op".into()),
         };
-        w.app.update_block(next_block);
+        if kv(line, "hold") != Some("1") {
+            w.app.update_block(next_block);
+        }
         let post = w.snapshot();
         let ok = res.is_ok();
-        let out = if ok {
-            if op == "distribute" {
-                let ms: Vec<String> = transfers.iter().map(|(t, d, n)| format!("{t}:{d}:{n}")).collect();
-                format!("ok msgs={} {}", if ms.is_empty() { "-".to_string() } else { ms.join(",") }, post.render())
-            } else {
-                format!("ok {}", post.render())
+        let me = w.splits_id;
+        let out = match op {
+            // ok/err of these two is the environment's business (parsing of a message nobody has / wasm admin + cw2);
+            // what C15 constrains is that nothing observable changes
+            "exec_raw" => format!("raw {} ## {} {}", post.render(), if ok { "ok" } else { "err" }, post.render_drift()),
+            "migrate" => format!("mig {} ## {} {}", post.render(), if ok { "ok" } else { "err" }, post.render_drift()),
+            _ if !ok => "err".to_string(),
+            "distribute" => {
+                // net gain of every account other than the contract, from the bank's balances
+                let sender = kv_u64(line, "sender").unwrap();
+                let funds = kv_pairs(line, "funds").unwrap();
+                let mut paid: Vec<String> = vec![];
+                let keys: BTreeSet<(u64, u64)> = pre.bank.keys().chain(post.bank.keys()).cloned().collect();
+                for (a_, d) in keys {
+                    if a_ == me {
+                        continue;
+                    }
+                    let attached: u128 = if a_ == sender { funds.iter().filter(|f| f.0 as u64 == d).map(|f| f.1).sum() } else { 0 };
+                    let base = pre.bal(a_, d).saturating_sub(attached);
+                    if post.bal(a_, d) > base {
+                        paid.push(format!("{a_}:{d}:{}", post.bal(a_, d) - base));
+                    }
+                }
+                let ms: String = match &events {
+                    Some(ev) if ev.is_empty() => "-".into(),
+                    Some(ev) => ev.iter().map(|(t, d, n)| format!("{t}:{d}:{n}")).collect::<Vec<_>>().join(","),
+                    None => "?".into(),
+                };
+                format!("ok paid={} {} ## {} msgs={ms}", if paid.is_empty() { "-".to_string() } else { paid.join(",") }, post.render(), post.render_drift())
             }
-        } else {
-            "err".to_string()
+            _ => format!("ok {} ## {}", post.render(), post.render_drift()),
         };
-        self.last = Some(Trace { line: line.to_string(), ok, pre, post: post.clone(), transfers, splits_id: w.splits_id });
+        self.last = Some(Trace { line: line.to_string(), ok, pre, post: post.clone(), events, splits_id: me, ledger_admin });
         self.cur = post;
+        // the harness's own ledger of who administers the splits contract: only what it SENT and saw accepted
+        if op == "splits_admin" && ok {
+            self.ledger_admin = kv_opt_u64(line, "new").unwrap();
+        }
         (model_line, out)
     }
+}
+
+fn checked_prod(xs: &[u128]) -> Option<u128> {
+    let mut r: u128 = 1;
+    for x in xs {
+        r = r.checked_mul(*x)?;
+    }
+    Some(r)
 }
 
 impl Sut for S {
@@ -343,11 +593,12 @@ impl Sut for S {
         self.header = header.to_string();
         self.log.clear();
         self.last = None;
+        self.ledger_admin = kv_opt_u64(header, "admin").unwrap_or(None);
         self.w = catch(|| S::build_world(header)).unwrap_or(None);
         match &self.w {
             Some(w) => {
                 self.cur = w.snapshot();
-                (header.to_string(), format!("case ok {}", self.cur.render()))
+                (header.to_string(), format!("case ok {} ## {}", self.cur.render(), self.cur.render_drift()))
             }
             None => {
                 self.cur = Snap::default();
@@ -378,46 +629,99 @@ impl Sut for S {
         }
     }
 
-    /// The property, transcribed on the implementation's own observations (independent of the Lean model).
+    /// The property, transcribed on observations that do not come from the code under test: the bank's balances (cw-multi-test),
+    /// the group as cw4-group itself reports it, what the harness SENT (sender, funds, denom list, coins minted / moved) and its own
+    /// ledger of the splits admin. Independent of the Lean model.
     fn monitor(&mut self) -> Option<(String, String)> {
         let t = self.last.clone()?;
         let op = t.line.split_whitespace().next()?.to_string();
         let bad = |p: &str, w: String| Some((format!("splits/{op}/{p}"), format!("{w} on `{}`", t.line)));
-        // --- the contract (and every other op here) never creates or loses coins: only `mint` changes a supply
+        let me = t.splits_id;
+        // --- "never creates or loses coins": only the environment's `mint` changes a supply
         let (d_pre, d_post) = (t.pre.denoms(), t.post.denoms());
         let denoms: BTreeSet<u64> = d_pre.union(&d_post).cloned().collect();
         for d in &denoms {
             let mut want = t.pre.supply(*d);
             if op == "mint" && t.ok {
-                want += kv_pairs(&t.line, "coins").unwrap().iter().filter(|c| c.0 as u64 == *d).map(|c| c.1).sum::<u128>();
+                for c in kv_pairs(&t.line, "coins").unwrap().iter().filter(|c| c.0 as u64 == *d) {
+                    want = add_wide(want, c.1);
+                }
             }
             if t.post.supply(*d) != want {
-                return bad("supply", format!("supply of denom {d} went {} -> {} (expected {want})", t.pre.supply(*d), t.post.supply(*d)));
+                return bad("supply", format!("supply of denom {d} went {:?} -> {:?} (expected {want:?})", t.pre.supply(*d), t.post.supply(*d)));
             }
         }
+        // --- a refused operation changes nothing
         if !t.ok && t.pre != t.post {
-            return bad("failed-but-changed", "a refused operation changed balances or the group".into());
+            return bad("failed-but-changed", "a refused operation changed balances, the group or an admin".into());
         }
+        // --- the admin of the splits contract changes only through an UpdateAdmin sent by the admin (the harness's own ledger)
+        if op == "splits_admin" && t.ok && t.ledger_admin != Some(kv_u64(&t.line, "sender").unwrap()) {
+            return bad("unauthorized-accepted", format!("UpdateAdmin accepted from a sender that is not the admin {:?}", t.ledger_admin));
+        }
+        let ledger_after = if op == "splits_admin" && t.ok { kv_opt_u64(&t.line, "new").unwrap() } else { t.ledger_admin };
+        if t.post.sadmin != ledger_after {
+            return bad("frame-admin", format!("the contract reports admin {:?}; every accepted UpdateAdmin so far leaves {:?}", t.post.sadmin, ledger_after));
+        }
+        // --- the group changes only through cw4-group's UpdateMembers
+        if !(op == "update_members" && t.ok) && (t.pre.members != t.post.members || t.pre.total != t.post.total) {
+            return bad("frame-group", "the group (members / total weight) changed without an accepted UpdateMembers".into());
+        }
+        // --- everything that is not an accepted Distribute moves exactly the coins the harness itself moved
         if op != "distribute" {
+            let mut want: Bal = t.pre.bank.clone();
+            want.retain(|_, v| *v != 0);
+            let mut mv = |from: Option<u64>, to: u64, coins: &[(u128, u128)]| {
+                for (d, n) in coins {
+                    if let Some(f) = from {
+                        let e = want.entry((f, *d as u64)).or_insert(0);
+                        *e = e.saturating_sub(*n);
+                    }
+                    let e = want.entry((to, *d as u64)).or_insert(0);
+                    *e = e.saturating_add(*n);
+                }
+            };
+            if t.ok {
+                match op.as_str() {
+                    "mint" => mv(None, kv_u64(&t.line, "to").unwrap(), &kv_pairs(&t.line, "coins").unwrap()),
+                    "send" => mv(Some(kv_u64(&t.line, "from").unwrap()), kv_u64(&t.line, "to").unwrap(), &kv_pairs(&t.line, "coins").unwrap()),
+                    // a message this file has no name for was accepted: the funds attached to it arrive, nothing else may move
+                    "exec_raw" => mv(Some(kv_u64(&t.line, "sender").unwrap()), me, &kv_pairs(&t.line, "funds").unwrap()),
+                    _ => {}
+                }
+            }
+            want.retain(|_, v| *v != 0);
+            let mut got = t.post.bank.clone();
+            got.retain(|_, v| *v != 0);
+            if got != want {
+                for d in &denoms {
+                    if t.post.bal(me, *d) < *want.get(&(me, *d)).unwrap_or(&0) {
+                        return bad("outflow", format!("the contract's balance of denom {d} fell from {} to {} without a Distribute", t.pre.bal(me, *d), t.post.bal(me, *d)));
+                    }
+                }
+                return bad("frame-bank", "balances changed that this operation does not move".into());
+            }
             return None;
         }
-        let me = t.splits_id;
+        // ------------------------------------------------------------------------------------ Distribute
         let sender = kv_u64(&t.line, "sender").unwrap();
         let funds = kv_pairs(&t.line, "funds").unwrap();
         // coins attached by the contract to a call to itself would not add anything (never generated; a contract cannot do it)
         let fund_of = |d: u64| -> u128 { if sender == me { 0 } else { funds.iter().filter(|f| f.0 as u64 == d).map(|f| f.1).sum() } };
-        let explicit: Option<Vec<u64>> = if kv(&t.line, "denoms").unwrap() == "none" { None } else { Some(kv_list(&t.line, "denoms").unwrap().iter().map(|x| *x as u64).collect()) };
+        let explicit: Option<Vec<u64>> = explicit_denoms(&t.line);
         let total = t.pre.total as u128;
         let members = &t.pre.members;
         // balance of the contract the distribution sees
-        let held = |d: u64| -> u128 { t.pre.bal(me, d) + fund_of(d) };
+        let held = |d: u64| -> u128 { t.pre.bal(me, d).saturating_add(fund_of(d)) };
         let all_denoms: BTreeSet<u64> = denoms.iter().cloned().chain(funds.iter().map(|f| f.0 as u64)).chain(explicit.clone().unwrap_or_default()).collect();
         let selected = |d: u64| -> bool { explicit.as_ref().map(|l| l.contains(&d)).unwrap_or(true) };
-        let entitled = match t.pre.sadmin {
+        let occ = |d: u64| -> u128 { explicit.as_ref().map(|l| l.iter().filter(|x| **x == d).count() as u128).unwrap_or(1) };
+        let entitled = match t.ledger_admin {
             Some(adm) => adm == sender,
             None => t.pre.weight(sender).is_some(),
         };
         let something = total != 0 && all_denoms.iter().any(|d| selected(*d) && held(*d) / total >= 1);
+        let self_w: u128 = t.pre.weight(me).unwrap_or(0) as u128;
         if t.ok {
             if !entitled {
                 return bad("unentitled-accepted", format!("sender {sender} is neither the admin nor (without admin) a member"));
@@ -431,78 +735,105 @@ impl Sut for S {
             if !something {
                 return bad("nothing-accepted", "no selected denom has balance >= total weight".into());
             }
-            // every transfer is `weight x floor(balance / total)` of a selected denom to a member with weight > 0
-            let mut want: Vec<(u64, u64, u128)> = vec![];
-            let occurrences: Vec<u64> = match &explicit {
-                Some(l) => l.iter().cloned().filter(|d| held(*d) != 0).collect(),
-                None => all_denoms.iter().cloned().filter(|d| held(*d) != 0).collect(),
-            };
-            for (a_, w_) in members {
-                for d in &occurrences {
-                    let q = held(*d) / total;
-                    if *w_ > 0 && q >= 1 {
-                        want.push((*a_, *d, *w_ as u128 * q));
-                    }
-                }
-            }
-            let mut got = t.transfers.clone();
-            got.sort();
-            want.sort();
-            if got != want {
-                return bad("transfer-shape", format!("transfers {:?} are not weight x floor(balance/total) per member and denom {:?}", t.transfers, want));
-            }
+            // what every account other than the contract gained (bank balances; the sender's attached funds taken out first)
+            let accounts: BTreeSet<u64> = t.pre.bank.keys().chain(t.post.bank.keys()).map(|k| k.0).chain(members.iter().map(|m| m.0)).collect();
+            let base = |a_: u64, d: u64| -> Option<u128> { t.pre.bal(a_, d).checked_sub(if a_ == sender { fund_of(d) } else { 0 }) };
             for d in &all_denoms {
-                let paid: u128 = t.transfers.iter().filter(|x| x.1 == *d).map(|x| x.2).sum();
-                if paid > held(*d) && !members.iter().any(|m| m.0 == me && m.1 > 0) {
-                    return bad("overpaid", format!("paid {paid} of denom {d}, held {}", held(*d)));
+                let q = if selected(*d) { held(*d) / total } else { 0 };
+                // the property: weight x floor(balance / total) — once. The code as it is pays a denom listed k times k times when the
+                // bank lets it (only possible when the contract is a paid member of its own group: docs/C15.md), so there k = occ too
+                let ks: Vec<u128> = if self_w > 0 && occ(*d) >= 2 { vec![1, occ(*d)] } else { vec![1] };
+                let mut first_bad: Option<(String, String)> = None;
+                let mut matched = false;
+                for k in &ks {
+                    let mut this_bad: Option<(String, String)> = None;
+                    let mut paid_others: u128 = 0;
+                    for a_ in accounts.iter().filter(|x| **x != me) {
+                        let w_ = t.pre.weight(*a_);
+                        let Some(b0) = base(*a_, *d) else { this_bad = bad("member-amount", format!("account {a_} cannot have attached the funds")); break };
+                        let got = t.post.bal(*a_, *d);
+                        if got < b0 {
+                            this_bad = bad("lost-coins", format!("account {a_} lost {} of denom {d} in a distribution", b0 - got));
+                            break;
+                        }
+                        let gain = got - b0;
+                        let want = checked_prod(&[w_.unwrap_or(0) as u128, q, *k]);
+                        paid_others = paid_others.saturating_add(gain);
+                        if Some(gain) != want {
+                            this_bad = match w_ {
+                                None => bad("nonmember-changed", format!("non-member {a_} received {gain} of denom {d}")),
+                                Some(0) => bad("zero-weight-paid", format!("zero-weight member {a_} received {gain} of denom {d}")),
+                                Some(w) => bad("member-amount", format!("member {a_} (weight {w}) received {gain} of denom {d}, expected {want:?} = weight x floor({}/{total}){}", held(*d), if *k > 1 { format!(" x {k} occurrences") } else { String::new() })),
+                            };
+                            break;
+                        }
+                    }
+                    if this_bad.is_none() {
+                        // never more than is held, and the contract keeps the rest
+                        if paid_others > held(*d) {
+                            this_bad = bad("overpaid", format!("paid {paid_others} of denom {d}, held {}", held(*d)));
+                        } else {
+                            let rest = t.post.bal(me, *d);
+                            if !selected(*d) {
+                                if rest != held(*d) {
+                                    this_bad = bad("unselected-touched", format!("denom {d} was not selected but the contract balance went {} -> {rest}", held(*d)));
+                                }
+                            } else if self_w == 0 {
+                                if rest != held(*d) % total || rest >= total {
+                                    this_bad = bad("remainder", format!("contract keeps {rest} of denom {d}; expected {} (< total weight {total})", held(*d) % total));
+                                }
+                            } else if Some(rest) != checked_prod(&[total - self_w.min(total), q, *k]).and_then(|x| held(*d).checked_sub(x)) {
+                                // the contract is a paid member of its own group: the literal "remainder < total weight" does not hold on
+                                // the code as it is (docs/C15.md); what must still hold: it loses exactly what the others are due
+                                this_bad = bad("self-member-rest", format!("contract (own weight {self_w}) keeps {rest} of denom {d}, expected {} - (total - own weight) x floor", held(*d)));
+                            }
+                        }
+                    }
+                    match this_bad {
+                        None => {
+                            matched = true;
+                            break;
+                        }
+                        Some(b) => {
+                            if first_bad.is_none() {
+                                first_bad = Some(b);
+                            }
+                        }
+                    }
+                }
+                if !matched {
+                    return first_bad;
                 }
             }
-            let self_member = members.iter().any(|m| m.0 == me && m.1 > 0);
-            if !self_member {
-                for d in &all_denoms {
-                    let q = if selected(*d) { held(*d) / total } else { 0 };
-                    for (a_, w_) in members {
-                        if *a_ == me {
-                            continue;
+            // message level (when cw-multi-test's events are readable and agree with the balances): every bank message is
+            // weight x floor(balance/total) of a selected denom to a member with weight > 0
+            if let Some(ev) = &t.events {
+                let mut agg: BTreeMap<(u64, u64), u128> = BTreeMap::new();
+                for (to, d, n) in ev.iter().filter(|e| e.0 != me) {
+                    let e = agg.entry((*to, *d)).or_insert(0);
+                    *e = e.saturating_add(*n);
+                }
+                let consistent = agg.iter().all(|((to, d), n)| base(*to, *d).map(|b| t.post.bal(*to, *d) == b.saturating_add(*n)).unwrap_or(false));
+                if !consistent {
+                    self.events_unreliable += 1;
+                } else {
+                    for (to, d, n) in ev {
+                        let w_ = t.pre.weight(*to).unwrap_or(0) as u128;
+                        let q = if selected(*d) { held(*d) / total } else { 0 };
+                        if w_ == 0 || q == 0 || Some(*n) != checked_prod(&[w_, q]) {
+                            return bad("transfer-shape", format!("bank message {to}:{d}:{n} is not weight x floor(balance/total) to a weighted member (weight {w_}, floor {q})"));
                         }
-                        let before = t.pre.bal(*a_, *d) - if *a_ == sender { fund_of(*d) } else { 0 };
-                        let delta = t.post.bal(*a_, *d) as i128 - before as i128;
-                        if *w_ == 0 && delta != 0 {
-                            return bad("zero-weight-paid", format!("zero-weight member {a_} received {delta} of denom {d}"));
-                        }
-                        if delta != (*w_ as u128 * q) as i128 {
-                            return bad("member-amount", format!("member {a_} (weight {w_}) received {delta} of denom {d}, expected {} = weight x floor({}/{total})", *w_ as u128 * q, held(*d)));
-                        }
-                    }
-                    let rest = t.post.bal(me, *d);
-                    if selected(*d) {
-                        if rest != held(*d) % total || rest >= total {
-                            return bad("remainder", format!("contract keeps {rest} of denom {d}; expected {} (< total weight {total})", held(*d) % total));
-                        }
-                    } else if rest != held(*d) {
-                        return bad("unselected-touched", format!("denom {d} was not selected but the contract balance changed"));
                     }
                 }
-                // nobody else is touched
-                for ((a_, d), n) in t.post.bank.iter().chain(t.pre.bank.iter()) {
-                    let _ = n;
-                    if *a_ == me || members.iter().any(|m| m.0 == *a_) {
-                        continue;
-                    }
-                    let before = t.pre.bal(*a_, *d) - if *a_ == sender { fund_of(*d) } else { 0 };
-                    if t.post.bal(*a_, *d) != before {
-                        return bad("nonmember-changed", format!("non-member {a_} balance of denom {d} changed"));
-                    }
-                }
+            } else {
+                self.events_unreliable += 1;
             }
         } else {
             // refusals the property demands are implied by `ok ⇒ …` above; here: a refusal must not be spurious
-            // when everything is in order and the bank can cover it (exactness claim of section 3.4)
+            // when everything is in order and the bank can cover it
             let self_in_group = members.iter().any(|m| m.0 == me);
-            let funds_ok = funds.iter().all(|f| f.1 > 0 && t.pre.bal(sender, f.0 as u64) >= fund_of(f.0 as u64)) && {
-                let ds: BTreeSet<u128> = funds.iter().map(|f| f.0).collect();
-                ds.len() == funds.len()
-            };
+            let fdenoms: BTreeSet<u64> = funds.iter().map(|f| f.0 as u64).collect();
+            let funds_ok = funds.is_empty() || (funds.iter().any(|f| f.1 > 0) && fdenoms.iter().all(|d| t.pre.bal(sender, *d) >= fund_of(*d)));
             let dup_selected = explicit.as_ref().map(|l| l.iter().any(|d| l.iter().filter(|x| *x == d).count() > 1 && held(*d) / total.max(1) >= 1)).unwrap_or(false);
             if entitled && total != 0 && !members.is_empty() && members.len() <= PROP_MAX_MEMBERS && something && funds_ok && !dup_selected && !self_in_group && sender != me {
                 return bad("spurious-refusal", "entitled caller, valid group, distributable balance — but refused".into());
@@ -511,7 +842,6 @@ impl Sut for S {
         None
     }
 }
-
 // ------------------------------------------------------------------------------------------------ generators
 
 const ADMIN: u64 = 5;
@@ -594,11 +924,24 @@ struct G<'a> {
     ses: &'a mut Session,
     sut: &'a mut S,
     rng: Rng,
+    /// coins minted so far in this case, per denom (the bank's Uint128 balances must not overflow: Σ minted <= u128::MAX)
+    minted: BTreeMap<u64, u128>,
 }
 
 impl<'a> G<'a> {
     fn step(&mut self, line: String) -> String {
         self.ses.step(self.sut, &line)
+    }
+    /// `mint` through the per-denom cap; zero-amount entries are kept (the bank drops them)
+    fn mint(&mut self, to: u64, coins: &[(u64, u128)], hold: bool) -> String {
+        let mut cs: Vec<(u64, u128)> = vec![];
+        for (d, n) in coins {
+            let m = self.minted.entry(*d).or_insert(0);
+            let n = (*n).min(u128::MAX - *m);
+            *m += n;
+            cs.push((*d, n));
+        }
+        self.step(format!("mint to={to} coins={}{}", fmt_pairs(&cs), if hold { " hold=1" } else { "" }))
     }
     fn alive(&self) -> bool {
         self.sut.w.is_some()
@@ -616,6 +959,7 @@ impl<'a> G<'a> {
         };
         let h = format!("case {tag} mode={mode} self={s} group={g} admin={} gadmin={} members={}", fmt_opt(&admin), fmt_opt(&gadmin), fmt_pairs(members));
         self.ses.begin_case(self.sut, &h);
+        self.minted.clear();
         let ok = self.alive();
         let total: u128 = members.iter().map(|m| m.1 as u128).sum();
         self.ses.mark(format!("inst:{mode}:{}:n{}:{}:{}", if ok { "ok" } else { "err" }, size_class(members.len()), if total == 0 { "T0" } else if total > u64::MAX as u128 { "Tover" } else { "Tpos" }, admin.is_some()));
@@ -665,12 +1009,20 @@ impl<'a> G<'a> {
         }
         if self.rng.chance(1, 3) {
             // a real transfer from a funded account
-            self.step(format!("mint to={DEPOSITOR} coins={}", fmt_pairs(&coins.iter().filter(|c| c.1 > 0).cloned().collect::<Vec<_>>())));
+            let nz: Vec<(u64, u128)> = coins.iter().filter(|c| c.1 > 0).cloned().collect();
+            let have_before: Vec<u128> = nz.iter().map(|c| self.sut.cur.bal(DEPOSITOR, c.0)).collect();
+            self.mint(DEPOSITOR, &nz, false);
+            // send what was really minted (the cap may have clamped it)
+            let coins: Vec<(u64, u128)> = coins.iter().map(|c| match nz.iter().position(|x| x.0 == c.0) {
+                Some(i) if c.1 > 0 => (c.0, self.sut.cur.bal(DEPOSITOR, c.0) - have_before[i]),
+                _ => *c,
+            }).collect();
             self.step(format!("send from={DEPOSITOR} to={me} coins={}", fmt_pairs(&coins)));
             self.ses.mark("deposit:send");
         } else {
-            self.step(format!("mint to={me} coins={}", fmt_pairs(&coins)));
-            self.ses.mark("deposit:mint");
+            let hold = self.rng.chance(1, 4);
+            self.mint(me, &coins, hold);
+            self.ses.mark(if hold { "deposit:mint:same-block" } else { "deposit:mint" });
         }
     }
 
@@ -702,6 +1054,7 @@ impl<'a> G<'a> {
                 (Some(_), 1) if !zero.is_empty() => (*self.rng.pick(&zero), "member0-while-admin"),
                 (None, 0) => (ADMIN, "former-admin"),
                 (_, 2) => (cur.gadmin.unwrap_or(GADMIN), "group-admin"),
+                (_, 3) if self.rng.chance(1, 2) => (self.sut.w.as_ref().map(|w| addr_id(w.group.as_str())).unwrap_or(STRANGER), "group-contract"),
                 _ => (STRANGER, "stranger"),
             }
         }
@@ -742,25 +1095,82 @@ impl<'a> G<'a> {
                 (fmt_list(&h), "explicit-reversed")
             }
         };
-        // sometimes coins ride along with the call itself
+        // sometimes coins ride along with the call itself: one coin, several denoms, the same denom twice, a zero coin next to a
+        // real one, only zero coins (the bank refuses), a denom the explicit list does not select, more than the sender has
         let mut funds: Vec<(u64, u128)> = vec![];
         let mut fclass = "nofunds";
-        if self.rng.chance(1, 8) {
+        if self.rng.chance(1, 6) {
             let d = self.rng.below(3);
             let n = if cur.total > 0 && self.rng.chance(1, 2) { cur.total as u128 } else { self.rng.range(1, 500) as u128 };
-            funds.push((d, n));
+            let shape = self.rng.below(8);
+            match shape {
+                0 => {
+                    funds.push((d, n));
+                    funds.push(((d + 1) % 3, self.rng.range(1, 500) as u128));
+                    fclass = "funds-multi";
+                }
+                1 => {
+                    funds.push((d, n));
+                    funds.push((d, self.rng.range(1, 9) as u128));
+                    fclass = "funds-dup-denom";
+                }
+                2 => {
+                    funds.push((d, n));
+                    funds.push(((d + 1) % 3, 0));
+                    fclass = "funds-zero-coin";
+                }
+                3 => {
+                    funds.push((d, 0));
+                    fclass = "funds-all-zero";
+                }
+                4 => {
+                    // a denom the call does not select (stays in the contract)
+                    let sel_now: Vec<u64> = if denoms == "none" { vec![] } else { kv_list(&format!("x={denoms}"), "x").unwrap().iter().map(|x| *x as u64).collect() };
+                    let un = (0..4u64).find(|x| !sel_now.contains(x)).unwrap_or(d);
+                    funds.push((un, n));
+                    fclass = if denoms == "none" { "funds" } else { "funds-unselected" };
+                }
+                _ => {
+                    funds.push((d, n));
+                    fclass = "funds";
+                }
+            }
             if self.rng.chance(5, 6) {
-                self.step(format!("mint to={sender} coins={d}:{n}"));
-                fclass = "funds";
-            } else {
+                let nz: Vec<(u64, u128)> = funds.iter().filter(|f| f.1 > 0).cloned().collect();
+                if !nz.is_empty() {
+                    self.mint(sender, &nz, false);
+                    // the cap may have clamped the mint: attach only what the sender really has
+                    for f in funds.iter_mut() {
+                        f.1 = f.1.min(self.sut.cur.bal(sender, f.0));
+                    }
+                }
+            } else if fclass != "funds-all-zero" {
                 fclass = "funds-uncovered";
             }
         }
+        let cur = self.sut.cur.clone();
         let t = cur.total as u128;
-        let sel: Vec<u64> = if denoms == "none" { held.clone() } else { kv_list(&format!("x={denoms}"), "x").unwrap().iter().map(|x| *x as u64).collect() };
-        let best = sel.iter().map(|d| cur.bal(me, *d) + funds.iter().filter(|f| f.0 == *d).map(|f| f.1).sum::<u128>()).max().unwrap_or(0);
-        let out = self.step(format!("distribute sender={sender} funds={} denoms={denoms}", fmt_pairs(&funds)));
+        let sel: Vec<u64> = if denoms == "none" {
+            held.iter().cloned().chain(funds.iter().map(|f| f.0)).collect()
+        } else {
+            kv_list(&format!("x={denoms}"), "x").unwrap().iter().map(|x| *x as u64).collect()
+        };
+        let best = sel.iter().map(|d| cur.bal(me, *d).saturating_add(funds.iter().filter(|f| f.0 == *d).map(|f| f.1).sum::<u128>())).max().unwrap_or(0);
+        let hold = self.rng.chance(1, 5);
+        let out = self.step(format!("distribute sender={sender} funds={} denoms={denoms}{}", fmt_pairs(&funds), if hold { " hold=1" } else { "" }));
         let ok = out.starts_with("ok");
+        if fclass != "nofunds" {
+            self.ses.mark(format!("funds:{fclass}:{}", if ok { "ok" } else { "err" }));
+        }
+        // boundary classes for the coverage floor
+        if valid_sender && fclass == "nofunds" && t > 0 && !cur.members.is_empty() {
+            if cur.members.len() <= PROP_MAX_MEMBERS && (best == t - 1 || best == t || best == t + 1) && dclass != "explicit-duplicate" {
+                self.ses.mark(format!("bound:bal:{}:{}", bal_class(best, t), if ok { "ok" } else { "err" }));
+            }
+            if best >= t && (cur.members.len() == 25 || cur.members.len() == 26) && dclass != "explicit-duplicate" && cur.weight(me).is_none() {
+                self.ses.mark(format!("bound:members:{}:{}", cur.members.len(), if ok { "ok" } else { "err" }));
+            }
+        }
         self.ses.mark(format!(
             "dist:{}:{sclass}:n{}:{dclass}:{}:{fclass}:{}",
             if ok { "ok" } else { "err" },
@@ -782,7 +1192,7 @@ impl<'a> G<'a> {
                 "no-members"
             } else if cur.members.len() > PROP_MAX_MEMBERS {
                 "too-many"
-            } else if fclass == "funds-uncovered" {
+            } else if fclass == "funds-uncovered" || fclass == "funds-all-zero" {
                 "funds-uncovered"
             } else if best < t {
                 "nothing"
@@ -790,6 +1200,7 @@ impl<'a> G<'a> {
                 "bank-or-other"
             };
             self.ses.count(&format!("refused:{why}"));
+            self.ses.mark(format!("refused:{why}"));
         }
         ok
     }
@@ -868,8 +1279,9 @@ impl<'a> G<'a> {
             }
         };
         self.rng.shuffle(&mut add);
-        let out = self.step(format!("update_members sender={sender} add={} remove={}", fmt_pairs(&add), fmt_list(&remove)));
-        self.ses.mark(format!("upd:{kclass}:{}:{}", if valid { "admin" } else { "other" }, if out.starts_with("ok") { "ok" } else { "err" }));
+        let hold = self.rng.chance(1, 3);
+        let out = self.step(format!("update_members sender={sender} add={} remove={}{}", fmt_pairs(&add), fmt_list(&remove), if hold { " hold=1" } else { "" }));
+        self.ses.mark(format!("upd:{kclass}:{}:{}{}", if valid { "admin" } else { "other" }, if out.starts_with("ok") { "ok" } else { "err" }, if hold { ":same-block" } else { "" }));
     }
 
     fn admin_change(&mut self) {
@@ -916,16 +1328,295 @@ impl<'a> G<'a> {
     }
 }
 
+// ------------------------------------------------------------------------------------------------ round-3 scenarios
+
+impl<'a> G<'a> {
+    fn group_id(&self) -> u64 {
+        self.sut.w.as_ref().map(|w| addr_id(w.group.as_str())).unwrap_or(0)
+    }
+
+    /// one message the contract does not have (or a variant of the crate's schema this file has no name for)
+    fn raw(&mut self, name: &str, sender: u64, funds: &[(u64, u128)], k: u128) -> String {
+        let known_in_schema = schema_variants(&self.sut.schema).iter().any(|v| v.0 == name);
+        let out = self.step(format!("exec_raw sender={sender} funds={} v={name} k={k}", fmt_pairs(funds)));
+        let res = if out.contains(" ## ok") { "ok" } else { "err" };
+        self.ses.mark(format!("raw:{}:{}:{res}", if known_in_schema { "schema-variant" } else { "absent" }, if funds.is_empty() { "nofunds" } else { "funds" }));
+        if known_in_schema {
+            self.ses.mark(format!("surface:unnamed-variant:{name}:{res}"));
+        }
+        out
+    }
+
+    /// every variant of the schema without a named op, and a rotating choice of messages nobody has, by several senders
+    fn raw_round(&mut self, n_hyp: usize) {
+        let cur = self.sut.cur.clone();
+        let me = self.me();
+        let unnamed: Vec<String> = schema_variants(&self.sut.schema).into_iter().map(|v| v.0).filter(|n| !KNOWN_EXEC.contains(&n.as_str())).collect();
+        let senders: Vec<u64> = vec![cur.sadmin.unwrap_or(ADMIN), cur.members.first().map(|m| m.0).unwrap_or(STRANGER), STRANGER, CREATOR];
+        for name in &unnamed {
+            for sd in &senders {
+                for k in [1u128, cur.bal(me, 0).max(1), cur.total.max(1) as u128] {
+                    self.raw(name, *sd, &[], k);
+                }
+            }
+        }
+        for _ in 0..n_hyp {
+            let name = *self.rng.pick(&HYPOTHETICAL);
+            let sd = *self.rng.pick(&senders);
+            let with_funds = self.rng.chance(1, 3);
+            let funds: Vec<(u64, u128)> = if with_funds {
+                let n = self.rng.range(1, 50) as u128;
+                self.mint(sd, &[(0, n)], false);
+                vec![(0, n.min(self.sut.cur.bal(sd, 0)))]
+            } else {
+                vec![]
+            };
+            let k = if self.rng.chance(1, 2) { 1 } else { cur.bal(me, 0).max(1) };
+            self.raw(name, sd, &funds, k);
+        }
+    }
+
+    fn migrate(&mut self, sender: u64, from: &str) -> String {
+        let out = self.step(format!("migrate sender={sender} from={from}"));
+        let res = if out.contains(" ## ok") { "ok" } else { "err" };
+        self.ses.mark(format!("migrate:{from}:{}:{res}", if sender == CREATOR { "wasm-admin" } else { "other" }));
+        out
+    }
+
+    /// scripted: a funded contract, then every unknown message and every kind of migration, then a distribution that must be
+    /// exactly what it would have been
+    fn scenario_surface(&mut self, mode: &str) {
+        let members = vec![(10u64, 1u64), (11, 2), (12, 0)];
+        if !self.start("surface", mode, Some(ADMIN), Some(GADMIN), &members) {
+            self.ses.end_case();
+            return;
+        }
+        let me = self.me();
+        self.mint(me, &[(0, 1000), (1, 7)], false);
+        self.raw_round(HYPOTHETICAL.len());
+        for name in HYPOTHETICAL {
+            self.raw(name, ADMIN, &[], 1000);
+        }
+        self.migrate(CREATOR, "same");
+        self.migrate(STRANGER, "same");
+        self.migrate(ADMIN, "old");
+        self.migrate(CREATOR, "newer");
+        self.migrate(CREATOR, "other");
+        self.migrate(CREATOR, "old");
+        let out = self.step(format!("distribute sender={ADMIN} funds=- denoms=none"));
+        self.ses.mark(format!("surface:distribute-after:{}", out.starts_with("ok")));
+        self.raw_round(3);
+        self.ses.end_case();
+    }
+
+    /// scripted: who is entitled follows the group and the admin AS THEY ARE NOW, also within one block
+    fn scenario_handover(&mut self, mode: &str, hold: bool) {
+        let h = if hold { " hold=1" } else { "" };
+        let tag = if hold { "same-block" } else { "next-block" };
+        // (a) no admin: a member distributes, is removed, is refused; a freshly added (zero-weight) member is entitled at once
+        if self.start("handover-member", mode, None, Some(GADMIN), &[(10, 3), (11, 2)]) {
+            let me = self.me();
+            self.mint(me, &[(0, 50)], hold);
+            let o1 = self.step(format!("distribute sender=10 funds=- denoms=none{h}"));
+            self.mint(me, &[(0, 50)], hold);
+            self.step(format!("update_members sender={GADMIN} add=12:0 remove=10{h}"));
+            let o2 = self.step(format!("distribute sender=10 funds=- denoms=none{h}"));
+            let o3 = self.step(format!("distribute sender=12 funds=- denoms=none{h}"));
+            self.ses.mark(format!("handover:member:{tag}:{}{}{}", o1.starts_with("ok") as u8, o2.starts_with("ok") as u8, o3.starts_with("ok") as u8));
+            // weights as they are now: total 2 after the removal
+            self.mint(me, &[(0, 7)], hold);
+            self.step(format!("update_members sender={GADMIN} add=11:5,13:1 remove=-{h}"));
+            let o4 = self.step(format!("distribute sender=13 funds=- denoms=0{h}"));
+            self.ses.mark(format!("sameblock:update-then-distribute:{tag}:{}", if o4.starts_with("ok") { "ok" } else { "err" }));
+        }
+        self.ses.end_case();
+        // (b) the admin is a member that is removed between two distributions: still the admin; other members are not entitled
+        if self.start("handover-admin", mode, Some(10), Some(GADMIN), &[(10, 3), (11, 2)]) {
+            let me = self.me();
+            self.mint(me, &[(0, 50)], hold);
+            let o1 = self.step(format!("distribute sender=10 funds=- denoms=none{h}"));
+            self.step(format!("update_members sender={GADMIN} add=- remove=10{h}"));
+            self.mint(me, &[(0, 50)], hold);
+            let o2 = self.step(format!("distribute sender=11 funds=- denoms=none{h}"));
+            let o3 = self.step(format!("distribute sender=10 funds=- denoms=none{h}"));
+            // the admin hands over to nobody: from now on the members decide
+            self.mint(me, &[(0, 50)], hold);
+            self.step(format!("splits_admin sender=11 new=11{h}"));
+            self.step(format!("splits_admin sender=10 new=-{h}"));
+            let o4 = self.step(format!("distribute sender=10 funds=- denoms=none{h}"));
+            let o5 = self.step(format!("distribute sender=11 funds=- denoms=none{h}"));
+            self.ses.mark(format!(
+                "handover:admin:{tag}:{}{}{}{}{}",
+                o1.starts_with("ok") as u8, o2.starts_with("ok") as u8, o3.starts_with("ok") as u8, o4.starts_with("ok") as u8, o5.starts_with("ok") as u8
+            ));
+        }
+        self.ses.end_case();
+        // (c) the group contract itself is a member and calls (inst mode: it is contract1)
+        if mode == "inst" && self.start("group-contract-member", mode, None, Some(GADMIN), &[(10, 1), (1001, 1)]) {
+            let me = self.me();
+            let g = self.group_id();
+            self.mint(me, &[(0, 10)], hold);
+            let o = self.step(format!("distribute sender={g} funds=- denoms=none{h}"));
+            self.ses.mark(format!("sender:group-contract:member:{}", if o.starts_with("ok") { "ok" } else { "err" }));
+        }
+        if mode == "inst" {
+            self.ses.end_case();
+        }
+    }
+
+    /// scripted: funds attached to the call in every shape
+    fn scenario_funds(&mut self, mode: &str) {
+        if !self.start("funds", mode, None, Some(GADMIN), &[(10, 2), (11, 1)]) {
+            self.ses.end_case();
+            return;
+        }
+        let me = self.me();
+        self.mint(10, &[(0, 100), (1, 100), (2, 100)], false);
+        let run = |g: &mut G, name: &str, funds: &str, denoms: &str| {
+            let o = g.step(format!("distribute sender=10 funds={funds} denoms={denoms}"));
+            g.ses.mark(format!("funds:scripted:{name}:{}", if o.starts_with("ok") { "ok" } else { "err" }));
+        };
+        run(self, "multi", "0:3,1:6", "none"); // two denoms ride along and are distributed at once
+        run(self, "unselected", "0:9,2:5", "0"); // denom 2 is attached but not selected: it stays in the contract
+        let left = self.sut.cur.bal(me, 2);
+        self.ses.mark(format!("funds:scripted:unselected-kept:{}", left == 5));
+        run(self, "zero-coin", "0:3,1:0", "none"); // the bank drops the zero coin
+        run(self, "all-zero", "0:0", "none"); // nothing but zero coins: the bank refuses the transfer
+        run(self, "dup-denom", "0:2,0:1", "none"); // the same denom twice: both arrive
+        run(self, "uncovered", "0:1000", "none"); // more than the sender has
+        run(self, "below-total", "1:2", "1"); // arrives but is less than the total weight: refused, funds stay with the sender
+        self.ses.end_case();
+    }
+
+    /// scripted: balances at the top of Uint128
+    fn scenario_huge(&mut self, mode: &str, profile: u64) {
+        let members: Vec<(u64, u64)> = match profile {
+            0 => vec![(10, 1), (11, 2), (12, 0)],
+            1 => vec![(10, 1 << 62), (11, (1 << 62) - 1), (12, 1)],
+            _ => vec![(10, u64::MAX - 1), (11, 1)],
+        };
+        if !self.start("huge", mode, Some(ADMIN), Some(GADMIN), &members) {
+            self.ses.end_case();
+            return;
+        }
+        let me = self.me();
+        let r = self.rng.range(0, 5) as u128;
+        self.mint(me, &[(3, u128::MAX - r), (0, 1u128 << 127)], false);
+        let o = self.step(format!("distribute sender={ADMIN} funds=- denoms=none"));
+        self.ses.mark(format!("huge:p{profile}:{}", if o.starts_with("ok") { "ok" } else { "err" }));
+        // only the remainder is left; a further mint is clamped by the cap
+        self.distribute(true);
+        self.mint(me, &[(3, 1u128 << 100)], false);
+        self.distribute(true);
+        self.ses.end_case();
+    }
+
+    /// the two literal clauses the code as it is does not satisfy (docs/C15.md, `C15_*_counterexample`, corpus/C15/*.json):
+    /// reproduced on the real contracts in every run
+    fn scenario_counterexamples(&mut self) {
+        if self.start("counterexample-remainder", "addr", Some(ADMIN), Some(GADMIN), &[(10, 1), (1001, 9)]) {
+            self.step("mint to=1001 coins=0:100".to_string());
+            let o = self.step(format!("distribute sender={ADMIN} funds=- denoms=none"));
+            let kept = self.sut.cur.bal(1001, 0);
+            let total = self.sut.cur.total as u128;
+            self.ses.mark(format!("counterexample:remainder:{}", if o.starts_with("ok") && kept >= total { "reproduced" } else { "gone" }));
+            if !(o.starts_with("ok") && kept >= total) {
+                self.ses.note("the self-member remainder counter-example no longer reproduces: C15_remainder_self_member_counterexample / docs need a second look");
+            }
+        }
+        self.ses.end_case();
+        if self.start("counterexample-double-pay", "inst", Some(ADMIN), Some(GADMIN), &[(1000, 9), (1001, 1)]) {
+            self.step("mint to=1000 coins=0:100".to_string());
+            let o = self.step(format!("distribute sender={ADMIN} funds=- denoms=0,0"));
+            let got = self.sut.cur.bal(1001, 0);
+            self.ses.mark(format!("counterexample:double-pay:{}", if o.starts_with("ok") && got == 20 { "reproduced" } else { "gone" }));
+            if !(o.starts_with("ok") && got == 20) {
+                self.ses.note("the self-member-first double payment no longer reproduces: C15_exact_amount_self_first_counterexample / docs need a second look");
+            }
+        }
+        self.ses.end_case();
+    }
+
+    /// scripted boundary grid: exactly 24 / 25 / 26 members × balance T−1 / T / T+1, entitled caller, no funds, implicit list
+    fn scenario_bounds(&mut self, mode: &str) {
+        for size in [24usize, 25, 26] {
+            for rel in [0u8, 1, 2] {
+                let members = gen_members(&mut self.rng, size, 2, None);
+                let members: Vec<(u64, u64)> = members.into_iter().map(|m| (m.0, m.1.max(1))).collect();
+                if !self.start("bounds", mode, Some(ADMIN), Some(GADMIN), &members) {
+                    self.ses.end_case();
+                    continue;
+                }
+                let me = self.me();
+                let t = self.sut.cur.total as u128;
+                let amt = match rel {
+                    0 => t - 1,
+                    1 => t,
+                    _ => t + 1,
+                };
+                if amt > 0 {
+                    self.mint(me, &[(0, amt)], false);
+                }
+                let o = self.step(format!("distribute sender={ADMIN} funds=- denoms=none"));
+                let ok = o.starts_with("ok");
+                if size <= PROP_MAX_MEMBERS {
+                    self.ses.mark(format!("bound:bal:{}:{}", ["T-1", "T", "T+1"][rel as usize], if ok { "ok" } else { "err" }));
+                }
+                if rel >= 1 {
+                    self.ses.mark(format!("bound:members:{size}:{}", if ok { "ok" } else { "err" }));
+                }
+                self.ses.end_case();
+            }
+        }
+    }
+}
+
 fn main() {
     let mut ses = Session::new("C15");
-    let mut sut = S { w: None, header: String::new(), log: vec![], cur: Snap::default(), last: None };
+    let mut sut = S::new();
     if ses.maybe_replay(&mut sut) {
         ses.finish(&mut sut);
     }
     let rng = ses.rng.fork();
     let n_grid = ses.scale(2, 60);
     let n_hist = ses.scale(1200, 45_000);
-    let mut g = G { ses: &mut ses, sut: &mut sut, rng };
+    // ---- coverage floor: without these the run would be vacuous (docs/HARNESS.md); all are reached by scripted scenarios
+    for c in [
+        "dist:ok:admin", "dist:ok:member+", "dist:ok:member0",
+        "refused:not-entitled", "refused:no-weight", "refused:too-many", "refused:nothing", "refused:funds-uncovered",
+        "bound:bal:T-1:err", "bound:bal:T:ok", "bound:bal:T+1:ok", "bound:members:25:ok", "bound:members:26:err",
+        "raw:absent:nofunds:err", "raw:absent:funds:err", "migrate:same:wasm-admin:ok", "migrate:old:wasm-admin:ok", "migrate:newer:wasm-admin:err",
+        "surface:distribute-after:true",
+        "handover:member:same-block:101", "handover:member:next-block:101", "handover:admin:same-block:10101", "handover:admin:next-block:10101",
+        "sameblock:update-then-distribute:same-block:ok", "sender:group-contract:member:ok",
+        "funds:scripted:multi:ok", "funds:scripted:unselected:ok", "funds:scripted:zero-coin:ok", "funds:scripted:all-zero:err",
+        "funds:scripted:dup-denom:ok", "funds:scripted:uncovered:err", "funds:scripted:unselected-kept:true",
+        "huge:p0:ok", "huge:p1:ok", "huge:p2:ok",
+        "counterexample:remainder:reproduced", "counterexample:double-pay:reproduced",
+        "self-member:w2", "self-member-first:0,0:true", "inst:addr:ok", "inst:inst:ok", "upd:reweight:admin:ok",
+    ] {
+        ses.require(c);
+    }
+    let surface: Vec<String> = schema_variants(&sut.schema).into_iter().map(|v| v.0).collect();
+    let unnamed: Vec<String> = surface.iter().filter(|n| !KNOWN_EXEC.contains(&n.as_str())).cloned().collect();
+    ses.note(format!("execute surface from the crate's JSON schema at run time: {:?}; without a named op (sent through exec_raw): {:?}", surface, unnamed));
+    for k in KNOWN_EXEC {
+        ses.mark(format!("surface:named:{k}:{}", surface.iter().any(|n| n == k)));
+    }
+    let mut g = G { ses: &mut ses, sut: &mut sut, rng, minted: BTreeMap::new() };
+
+    // ---- 0. round-3 scripted scenarios (every seed, every tier)
+    g.scenario_counterexamples();
+    for mode in ["addr", "inst"] {
+        g.scenario_surface(mode);
+        g.scenario_handover(mode, true);
+        g.scenario_handover(mode, false);
+        g.scenario_funds(mode);
+        g.scenario_bounds(mode);
+        for p in 0..3 {
+            g.scenario_huge(mode, p);
+        }
+    }
 
     // ---- 1. the size × mode × weight-profile grid: instantiate, deposit at a chosen relation to the total weight,
     //         distribute (entitled and not), distribute again (now only the remainder is left), deposit, distribute
@@ -942,6 +1633,9 @@ fn main() {
                     let nd = g.rng.range(1, 3);
                     let ds: Vec<u64> = (0..nd).collect();
                     g.deposit(&ds);
+                    if g.rng.chance(1, 6) {
+                        g.raw_round(1);
+                    }
                     g.distribute(false);
                     g.distribute(true);
                     g.distribute(true);
@@ -1068,7 +1762,17 @@ fn main() {
                     g.update_members(valid);
                 }
                 17 => g.admin_change(),
-                18 => g.queries(),
+                18 => {
+                    if g.rng.chance(1, 2) {
+                        g.queries()
+                    } else if g.rng.chance(2, 3) {
+                        g.raw_round(2)
+                    } else {
+                        let who = *g.rng.pick(&[CREATOR, CREATOR, STRANGER, ADMIN]);
+                        let from = *g.rng.pick(&["same", "old", "newer", "other"]);
+                        g.migrate(who, from);
+                    }
+                }
                 _ => {
                     // a member moves its own coins around (not a deposit)
                     let cur = g.sut.cur.clone();
@@ -1087,6 +1791,11 @@ fn main() {
         g.ses.end_case();
     }
 
-    ses.note("groups of 0..35 members; weights 0, 1, small, 2^32.., near 2^62 (sums up to and over u64::MAX); balances T-1, T, T+1, kT, kT+T-1, kT+r, T/2, 2T-1, random up to 2^100; denoms 0..3 (+ unknown 8, 9); explicit / implicit / duplicate / empty denom lists; funds attached to the call; admin set / unset; the contract as a member of its own group");
+    let unreliable = sut.events_unreliable;
+    if unreliable > 0 {
+        ses.mark("events-unreliable");
+        ses.note(format!("cw-multi-test transfer events disagreed with the balance deltas (or could not be parsed) {unreliable} times: message-level `transfer-shape` skipped there, balance-level monitors unaffected"));
+    }
+    ses.note("groups of 0..35 members; weights 0, 1, small, 2^32.., near 2^62 (sums up to and over u64::MAX); balances T-1, T, T+1, kT, kT+T-1, kT+r, T/2, 2T-1, random up to 2^100; denoms 0..3 (+ unknown 8, 9); explicit / implicit / duplicate / empty denom lists; funds attached to the call; admin set / unset; the contract as a member of its own group; funds in several denoms / zero coins / unselected denoms; same-block sequences (hold=1); balances up to u128::MAX; unknown execute messages and migrations under the frame monitors");
     ses.finish(&mut sut);
 }
